@@ -149,7 +149,7 @@ pub proof fn lemma_first_idx_at(s: Seq<u8>, d: u8, j: int)
         lemma_first_idx_at(t, d, j - 1);
     }
 }
-proof fn lemma_first_crlf_at(w: Seq<u8>, j: int)
+pub proof fn lemma_first_crlf_at(w: Seq<u8>, j: int)
     requires 1 <= j < w.len(), w[j - 1] == 13u8, w[j] == 10u8,
         forall|i: int| 1 <= i < j ==> !(w[i - 1] == 13u8 && #[trigger] w[i] == 10u8),
     ensures first_crlf(w) == j,
@@ -161,6 +161,54 @@ proof fn lemma_first_crlf_at(w: Seq<u8>, j: int)
         assert(t[j - 2] == 13u8 && t[j - 1] == 10u8);
         assert forall|i: int| 1 <= i < j - 1 implies !(t[i - 1] == 13u8 && #[trigger] t[i] == 10u8) by { assert(t[i - 1] == w[i]); assert(t[i] == w[i + 1]); }
         lemma_first_crlf_at(t, j - 1);
+    }
+}
+pub proof fn lemma_first_idx_props(s: Seq<u8>, d: u8)
+    ensures 0 <= first_idx(s, d) <= s.len(), forall|j: int| 0 <= j < first_idx(s, d) ==> s[j] != d,
+        first_idx(s, d) < s.len() ==> s[first_idx(s, d)] == d,
+    decreases s.len(),
+{
+    if s.len() == 0 { } else if s[0] == d { } else {
+        let t = s.skip(1);
+        lemma_first_idx_props(t, d);
+        assert forall|j: int| 0 <= j < first_idx(s, d) implies s[j] != d by { if j > 0 { assert(t[j - 1] == s[j]); } }
+        if first_idx(s, d) < s.len() { assert(t[first_idx(t, d)] == s[first_idx(t, d) + 1]); }
+    }
+}
+/// what `take(n).read_until(d)` consumes: up to and including the first `d`, else everything within the limit
+pub proof fn lemma_until_len_props(w: Seq<u8>, n: u64, d: u8)
+    ensures ({
+        let k = until_len(w, n, d);
+        let lim = if (n as int) < w.len() { n as int } else { w.len() as int };
+        &&& 0 <= k <= lim
+        &&& forall|j: int| 0 <= j < k - 1 ==> w[j] != d
+        &&& ((k >= 1 && w[k - 1] == d) || (k == lim && forall|j: int| 0 <= j < k ==> w[j] != d))
+    }),
+{
+    let lim = if (n as int) < w.len() { n as int } else { w.len() as int };
+    let t = w.take(lim);
+    lemma_first_idx_props(t, d);
+    let i = first_idx(t, d);
+    assert forall|j: int| 0 <= j < i implies w[j] != d by { assert(t[j] == w[j]); }
+    if i < lim { assert(t[i] == w[i]); }
+}
+pub proof fn lemma_first_crlf_props(w: Seq<u8>)
+    ensures ({
+        let i = first_crlf(w);
+        &&& 0 <= i <= w.len()
+        &&& (i < w.len() ==> 1 <= i && w[i - 1] == 13u8 && w[i] == 10u8)
+        &&& forall|j: int| 1 <= j < i && j < w.len() ==> !(w[j - 1] == 13u8 && #[trigger] w[j] == 10u8)
+    }),
+    decreases w.len(),
+{
+    if w.len() < 2 { } else if w[0] == 13u8 && w[1] == 10u8 { } else {
+        let t = w.skip(1);
+        lemma_first_crlf_props(t);
+        let i = first_crlf(w);
+        if i < w.len() { assert(t[i - 2] == w[i - 1] && t[i - 1] == w[i]); }
+        assert forall|j: int| 1 <= j < i && j < w.len() implies !(w[j - 1] == 13u8 && #[trigger] w[j] == 10u8) by {
+            if j >= 2 { assert(t[j - 2] == w[j - 1] && t[j - 1] == w[j]); }
+        }
     }
 }
 pub proof fn lemma_trim_noop(s: Seq<u8>)
